@@ -218,7 +218,7 @@ package vm
 // node; like Call and create they leave cursor, depth and read-only flag as they found them.
 //@ func (*vm.EVM).CallCode(evm, ctx, caller, addr, input, gas, value) (ret, leftOverGas, err)
 //@   verify
-//@   properties C07
+//@   properties C07 C02 C06
 //@   requires host: hostEVM(evm) && hostRef(caller) && value != nil
 //@   ensures cursor-kept: evm.tracer.callTree.current == old(evm.tracer.callTree.current)
 //@   ensures depth-kept: evm.depth == old(evm.depth)
@@ -226,11 +226,13 @@ package vm
 //@   ensures rules-kept: evm.chainRules == old(evm.chainRules)
 //@   ensures env-kept: evm.StateDB == old(evm.StateDB) && evm.Context.BlockNumber == old(evm.Context.BlockNumber)
 //@   ensures tree-grows: evm.tracer.callTree.count >= old(evm.tracer.callTree.count)
+//@   ensures no-gas-created [C02 C06]: leftOverGas <= gas
+//@   ensures halt-forfeits-gas [C02 C06]: err == nil || err == ErrExecutionReverted || leftOverGas == 0 || ((err == ErrDepth || err == ErrInsufficientBalance) && leftOverGas == gas)
 //@   modifies *
 //@ end
 //@ func (*vm.EVM).DelegateCall(evm, ctx, caller, addr, input, gas) (ret, leftOverGas, err)
 //@   verify
-//@   properties C07
+//@   properties C07 C02 C06
 //@   requires host: hostEVM(evm) && hostRef(caller)
 //@   ensures cursor-kept: evm.tracer.callTree.current == old(evm.tracer.callTree.current)
 //@   ensures depth-kept: evm.depth == old(evm.depth)
@@ -238,11 +240,13 @@ package vm
 //@   ensures rules-kept: evm.chainRules == old(evm.chainRules)
 //@   ensures env-kept: evm.StateDB == old(evm.StateDB) && evm.Context.BlockNumber == old(evm.Context.BlockNumber)
 //@   ensures tree-grows: evm.tracer.callTree.count >= old(evm.tracer.callTree.count)
+//@   ensures no-gas-created [C02 C06]: leftOverGas <= gas
+//@   ensures halt-forfeits-gas [C02 C06]: err == nil || err == ErrExecutionReverted || leftOverGas == 0 || ((err == ErrDepth || err == ErrInsufficientBalance) && leftOverGas == gas)
 //@   modifies *
 //@ end
 //@ func (*vm.EVM).StaticCall(evm, ctx, caller, addr, input, gas) (ret, leftOverGas, err)
 //@   verify
-//@   properties C07
+//@   properties C07 C02 C06
 //@   requires host: hostEVM(evm) && hostRef(caller)
 //@   ensures cursor-kept: evm.tracer.callTree.current == old(evm.tracer.callTree.current)
 //@   ensures depth-kept: evm.depth == old(evm.depth)
@@ -250,6 +254,8 @@ package vm
 //@   ensures rules-kept: evm.chainRules == old(evm.chainRules)
 //@   ensures env-kept: evm.StateDB == old(evm.StateDB) && evm.Context.BlockNumber == old(evm.Context.BlockNumber)
 //@   ensures tree-grows: evm.tracer.callTree.count >= old(evm.tracer.callTree.count)
+//@   ensures no-gas-created [C02 C06]: leftOverGas <= gas
+//@   ensures halt-forfeits-gas [C02 C06]: err == nil || err == ErrExecutionReverted || leftOverGas == 0 || ((err == ErrDepth || err == ErrInsufficientBalance) && leftOverGas == gas)
 //@   modifies *
 //@ end
 
